@@ -368,13 +368,25 @@ class MDCPDPEnv(RL4COEnvBase):
         # Append the last depot to the end of the actions
         actions = torch.cat([actions, td["current_depot"]], dim=-1)
 
+        # The last vehicle still has to go back to its depot: the action that would take it there is
+        # not part of the episode (see above), so its leg is not in `current_length` yet unless the
+        # instance was stepped to the depot after finishing. Open routes do not pay for the way back
+        current_length = td["current_length"]
+        if self.problem_mode == "close":
+            last_loc = gather_by_index(td["locs"], td["current_node"])
+            depot_loc = gather_by_index(td["locs"], td["current_depot"])
+            closing_length = self.get_distance(last_loc, depot_loc)[..., None]
+            current_length = current_length.scatter_add(
+                -1, td["current_depot"], closing_length * (td["current_node"] >= num_depot)
+            )
+
         # Calculate the reward
         if self.reward_mode == "minmax":
-            cost = torch.max(td["current_length"], dim=-1)[0]
+            cost = torch.max(current_length, dim=-1)[0]
         elif self.reward_mode == "minsum":
-            cost = torch.sum(td["current_length"], dim=-1)
+            cost = torch.sum(current_length, dim=-1)
         elif self.reward_mode == "lateness":
-            cost = torch.sum(td["current_length"], dim=(-1))
+            cost = torch.sum(current_length, dim=(-1))
             lateness = td["arrivetime_record"][..., num_depot + num_loc // 2 :]
             if self.reward_mode == "lateness_square":
                 lateness = lateness**2
